@@ -9,6 +9,34 @@ ALL = ["C%02d" % i for i in range(1, 21)]
 
 # id -> (category, text, note, technique, design_ref)
 CHECKS = {
+    "C01": ("exploration",
+            "(1) The real cache lookup used for routing is compared with brute-force containment for every layout of up to "
+            "3 boundaries over all keys of length <=2 from {00 , : a ff}, every subset/first-touch order of its regions "
+            "next to regions of prefix-named and namespaced tables, 7 probe tables x 31 keys (exhaustive small scope). (2) "
+            "The real client runs all request kinds and batches against simulated clusters with hostile table names and "
+            "boundary-adjacent keys; the simulated servers judge every executed action (region name and server must own "
+            "the row) and meta lookups are counted per first touch (exactly one per new region, none for cached keys).",
+            "Trusted: simulated hbase:meta answering semantically, brute-force containment. Static layouts, sequential "
+            "requests; keys/layouts outside the enumerated scope and random sample are not judged.",
+            "runtime differential oracle (exhaustive small scope) + wire-level monitor on a simulated cluster", "DESIGN.md §2 C01"),
+    "C06": ("exploration",
+            "Thousands of generated scans (forward/reversed, every kind of range bound, 1..5 regions, partial results on/off, "
+            "cellblock / protobuf / compressed results) run through the real client against simulated servers that cut the "
+            "stream at random: rows per response, partial fragments inside and across responses, complete rows flagged "
+            "partial, heartbeats, late region-end, early more_results=false. The returned sequence is compared with a model "
+            "computed from the case alone (rows, order, cells, fragments concatenating to rows).",
+            "Trusted: simulator scan semantics (DESIGN.md §7). Keys with eight consecutive 0xff excluded as documented. "
+            "Seeded sample; chunkings not drawn are not judged.",
+            "runtime reference-model monitor over generated scans and server chunkings", "DESIGN.md §2 C06"),
+    "C14": ("fault_enumeration",
+            "The scans of C06 are ended at a drawn point in every way a scan can end (exhausted, Close after j calls, "
+            "cancellation between fetches, cancellation with the r-th request unanswered, non-retryable and retryable RPC "
+            "error on the r-th request, server-declared end at the r-th response), with and without renewal. A trace "
+            "automaton judges the Next sequence, Close is timed and repeated, and the simulated servers' scanner table is "
+            "checked for conservation (every opened region scanner exhausted or explicitly closed) and for renewals after the end.",
+            "Ending points are sampled per scan (j, r drawn), not enumerated for every scan. One inherent protocol limit is "
+            "a known finding.",
+            "runtime trace-automaton + conservation monitor over fault-injected scans", "DESIGN.md §2 C14"),
     "C08": ("exploration",
             "The real location cache (guarded export of the client's key->region cache, same code path as region "
             "discovery) is driven with put/remove histories in lock-step with a brute-force interval model; after every "
